@@ -1161,14 +1161,16 @@ def eff_rank(v, n, part):
     return int(_effective_rank(s)), [float(x) for x in s]
 
 
-def plan_impl(v, n, part, lr, iso, uni, svd):
-    """Observe the real `_define_initialize`.  `part=None` = default partition.  Returns (op, lines)."""
+def plan_impl(v, n, part, lr, iso, uni, svd, part_obj=None):
+    """Observe the real `_define_initialize`.  `part=None` = default partition.  Returns (op, lines).
+    `part_obj`: the object handed to the real code as `partition` (tuple / ndarray / list of numpy ints holding the
+    same indices as `part`, in the same order); default `list(part)`."""
     from unittest import mock
     from qiskit import QuantumCircuit
     from qclib.state_preparation import lowrank
     opts = {"lr": lr, "iso_scheme": iso, "unitary_scheme": uni, "svd": svd}
     if part is not None:
-        opts["partition"] = list(part)
+        opts["partition"] = list(part) if part_obj is None else part_obj
     g = lowrank.LowRankInitialize(v, opt_params=opts)
     ev, cap = [], {}
     orig_sd, orig_cx, orig_tq = lowrank.schmidt_decomposition, QuantumCircuit.cx, lowrank._to_qubits
@@ -1472,6 +1474,892 @@ def run_tie_plesch(ctx, nmax=5):
 
 
 # ------------------------------------------------------------------------------------------------
+# INPUT DIVERSITY (functions `_diversity_*` / `_div_*`): the FORM of otherwise ordinary valid inputs
+#   (1) element types   python list / tuple / list of numpy scalars / float32 / float64 / complex64 / complex128 /
+#                       int64 arrays, all-integer basis vectors, real dtypes for every class (the algorithms create complex
+#                       intermediates), complex dtype with exactly-zero imaginary parts, negative zeros
+#   (2) scale           heavy head + light tail 1e-3 .. 3e-6 (start / end / mixed), all-equal moduli, exactly repeated
+#                       values, all-negative reals, purely imaginary, one amplitude of modulus exactly 1 (each index, phase
+#                       1, -1, i, -i), sparse with nnz << length, norm carried by one sub-tree
+#   (3) sign / phase    exactly-zero imaginary part with negative entries, global phase -1 and i, per-entry phases +-1, +-i
+#   (4) call forms      constructor `.definition`, static `X.initialize(circuit, state, qubits=[...], opt_params=...)` on a
+#                       permuted non-ascending sub-list of a larger host (integer indices, numpy integers, Qubit objects,
+#                       two registers, positional arguments), the same gate appended twice, `.copy()` / deepcopy before
+#                       and after `.definition`, the SAME opt_params dict reused with contents changed in between,
+#                       partition as tuple / ndarray / list of numpy ints (sorted and unsorted), max_fidelity_loss = int 0
+#   (5) sizes           n = 1, 2, 3 explicitly for every class defined there, n = 4, selected n = 5, 6 (odd / even default
+#                       partition (n+1)//2 vs n//2)
+# The ideal is np.asarray(<the object handed to the library>, dtype=complex), computed by the harness.
+# Observable: Statevector of the circuit vs the ideal to TOL, global phase included (except global_phase=False).
+# ------------------------------------------------------------------------------------------------
+
+DIV_QUARTIC = [1, -1, 1j, -1j]
+DIV_PHASE_NAME = {1: "p1", -1: "m1", 1j: "pi", -1j: "mi"}
+DIV_TAILS = [1e-3, 1e-4, 3e-6]
+DIV_CUT_BAND = (2e-8, 5e-7)      # no Schmidt coefficient of a generated vector across ANY bipartition lies this close to the
+                                 # 1e-7 rank cut of entanglement._effective_rank (dropping below it costs < 2e-8)
+DIV_REAL_FORMS = ["float-list", "f64"]
+DIV_ANY_FORMS = ["list", "tuple", "c128", "npscalar-list"]
+DIV_EXACT32_FORMS = ["f32", "c64", "npscalar32-list"]
+DIV_INT_FORMS = ["int-list", "i64", "mixed-list"]
+
+
+def _div_cl(vals):
+    """list of python complex with +0.0 zeros (re, im separately) -> unit vector (numpy complex128)."""
+    v = np.array([complex(float(np.real(a)) + 0.0, float(np.imag(a)) + 0.0) for a in vals])
+    v = v / np.linalg.norm(v)
+    return np.array([complex(float(a.real) + 0.0, float(a.imag) + 0.0) for a in v])
+
+
+def _div_cut_ok(v, n):
+    """No singular value across any bipartition inside DIV_CUT_BAND."""
+    if n < 2:
+        return True
+    for k in range(1, n // 2 + 1):
+        for part in itertools.combinations(range(n), k):
+            s = np.linalg.svd(ref_sep(n, v, list(part)), compute_uv=False)
+            if any(DIV_CUT_BAND[0] <= x <= DIV_CUT_BAND[1] for x in s):
+                return False
+    return True
+
+
+def _div_dyadic(r, dim, m=None):
+    """Non-negative integers k_i with sum k_i^2 = 4^m: the amplitudes k_i / 2^m are exact in float32 and the sum of their
+    squares is exactly 1 in float32 arithmetic as well (documented validation: |sum - 1| <= 1e-10)."""
+    if m is None:
+        m = 3 if dim <= 16 else 4
+    target = 4 ** m
+    for _ in range(200):
+        k = [0] * dim
+        tot = 0
+        for _ in range(40 * dim):
+            i = int(r.integers(dim))
+            inc = 2 * k[i] + 1
+            if tot + inc <= target:
+                k[i] += 1
+                tot += inc
+            if tot == target:
+                return [x / 2 ** m for x in k]
+    k = [0] * dim
+    k[int(r.integers(dim))] = 2 ** m
+    return [x / 2 ** m for x in k]
+
+
+def _div_vectors(r, n, level=2):
+    """[(name, vector, tags)]: the scale / sign / phase families.  tags: 'real' (imaginary parts exactly +0.0),
+    'exact32' (exact in float32 / complex64), 'int' (integer amplitudes), 'negzero' (oracle only: the JSON channel of
+    the tie does not carry the sign of zero).  level 2 = all families, 1 = one representative per family, 0 = a handful."""
+    dim = 2 ** n
+    out = []
+
+    def gen(cplx=True):
+        m = r.uniform(0.3, 1.0, size=dim)
+        return m * np.exp(1j * r.uniform(-3.0, 3.0, size=dim)) if cplx else m * r.choice([-1.0, 1.0], size=dim)
+
+    def add(name, vals, *tags, screen=False, maker=None):
+        v = _div_cl(vals)
+        tries = 0
+        while screen and not _div_cut_ok(v, n) and maker is not None and tries < 8:
+            v = _div_cl(maker())
+            tries += 1
+        if screen and not _div_cut_ok(v, n):
+            out.append((name, None, ("skipped",)))
+            return
+        out.append((name, v, tags))
+
+    # ---- (2) heavy head + light tail
+    def tail(pos, eps, cplx, heads):
+        def make():
+            idx = {"start": list(range(heads)), "end": list(range(dim - heads, dim)),
+                   "mixed": [int(x) for x in r.choice(dim, size=heads, replace=False)]}[pos]
+            v = eps * r.uniform(0.5, 1.5, size=dim) * (np.exp(1j * r.uniform(-3, 3, size=dim)) if cplx
+                                                        else r.choice([-1.0, 1.0], size=dim))
+            for i in idx:
+                v[i] = r.uniform(0.5, 1.0) * (np.exp(1j * r.uniform(-3, 3)) if cplx else r.choice([-1.0, 1.0]))
+            return v
+        return make
+    c = int(r.integers(6))
+    for pos in ("start", "end", "mixed"):
+        for rep in range(2 if level >= 2 else 1):
+            eps = DIV_TAILS[c % 3]
+            cplx = bool((c // 3) % 2)
+            heads = 1 if (dim == 2 or c % 2) else 2
+            c += 1
+            mk = tail(pos, eps, cplx, heads)
+            add(f"tail-{pos}-{eps:g}-{'c' if cplx else 'r'}-h{heads}", mk(), *(() if cplx else ("real",)), screen=True, maker=mk)
+    if level >= 1 and dim >= 4:
+        def graded():
+            sc = np.array([1.0, 1e-1, 1e-2] + [10 ** -(3 + 3 * i / max(1, dim - 4)) for i in range(dim - 3)])
+            return r.permutation(sc) * np.exp(1j * r.uniform(-3, 3, size=dim))
+        add("tail-graded-1..1e-6", graded(), screen=True, maker=graded)
+
+    # ---- (2)/(3) all-equal moduli, phases exactly +-1, +-i
+    add("equal-quartic", [DIV_QUARTIC[int(r.integers(4))] for _ in range(dim)])
+    if level >= 1:
+        add("equal-pm1", [[1.0, -1.0][int(r.integers(2))] for _ in range(dim)], "real")
+        add("equal-allneg", [-1.0] * dim, "real")
+        add("equal-pmi", [[1j, -1j][int(r.integers(2))] for _ in range(dim)])
+    if level >= 2:
+        add("equal-alli", [1j] * dim)
+        add("equal-allmi", [-1j] * dim)
+    # ---- exactly repeated values
+    if level >= 1:
+        a, b = complex(r.uniform(0.3, 1)), r.uniform(0.3, 1) * np.exp(1j * r.uniform(-3, 3))
+        add("repeat-block", [a] * (dim // 2) + [b] * (dim // 2))
+        if level >= 2:
+            add("repeat-interleave", [a, b] * (dim // 2))
+            add("repeat-real-neg", [-0.6, 0.8] * (dim // 2), "real")
+    # ---- all-negative reals, purely imaginary, global phase -1 / i, zero imaginary part with negative entries
+    pos_v = r.uniform(0.3, 1.0, size=dim)
+    sgn_v = gen(False)
+    add("allneg", -pos_v, "real")
+    add("realsigned", sgn_v, "real")
+    add("imag-signed", 1j * sgn_v)
+    if level >= 1:
+        add("gphase-i", 1j * pos_v)
+        add("gphase-mi", -1j * pos_v)
+        g = gen(True)
+        add("complex", g)
+        if level >= 2:
+            add("complex-gphase-m1", -g)
+            add("complex-gphase-i", 1j * g)
+    # ---- a single amplitude of modulus exactly 1
+    if dim <= 4:
+        units = [(k, p) for k in range(dim) for p in DIV_QUARTIC]
+    elif dim == 8:
+        off = int(r.integers(4))
+        units = [(k, DIV_QUARTIC[(k + off + j) % 4]) for k in range(dim) for j in ((0, 2) if level >= 2 else (0,))]
+    else:
+        ks = [0, dim - 1] + [int(x) for x in r.choice(np.arange(1, dim - 1), size=2, replace=False)]
+        units = [(k, DIV_QUARTIC[j]) for j, k in enumerate(ks)]
+    if level == 0:
+        units = units[::max(1, len(units) // 2)][:2]
+    for k, p in units:
+        v = [0.0] * dim
+        v[k] = p
+        tags = ("real", "exact32", "int") if p in (1, -1) else ("exact32", "gaussint")
+        add(f"unit-k{k}-{DIV_PHASE_NAME[p]}", v, *tags)
+    # ---- sparse with nnz << length, norm carried by one sub-tree
+    if dim >= 8:
+        for nnz in ((2, 3) if level >= 1 else (int(r.integers(2, 4)),)):
+            v = np.zeros(dim, dtype=complex)
+            for i in r.choice(dim, size=nnz, replace=False):
+                v[i] = r.uniform(0.3, 1) * np.exp(1j * r.uniform(-3, 3))
+            add(f"sparse-nnz{nnz}", v)
+        if level >= 1:
+            v = np.zeros(dim)
+            for i in r.choice(dim, size=2, replace=False):
+                v[i] = r.uniform(0.3, 1) * r.choice([-1.0, 1.0])
+            add("sparse-real-nnz2", v, "real")
+    if dim >= 4:
+        for lvl in sorted({1, n - 1} if level >= 2 else {int(r.integers(1, n))}):
+            size = dim >> lvl
+            start = int(r.integers(dim // size)) * size
+            v = np.zeros(dim, dtype=complex)
+            v[start:start + size] = gen(True)[:size]
+            add(f"subtree-L{lvl}-at{start}", v)
+    # ---- dyadic: exact in float32 / complex64 (real signed, and magnitudes x quartic phases)
+    if level >= 1:
+        k = _div_dyadic(r, dim)
+        add("dyadic-r", [x * [1.0, -1.0][int(r.integers(2))] for x in k], "real", "exact32")
+        k = _div_dyadic(r, dim)
+        add("dyadic-c", [x * DIV_QUARTIC[int(r.integers(4))] for x in k], "exact32")
+    # ---- negative zeros in the zero amplitudes (and as the imaginary part of negative reals): oracle only
+    nzs = [complex(-0.0, 0.0), complex(0.0, -0.0), complex(-0.0, -0.0)]
+    if level >= 1:
+        v = [nzs[int(r.integers(3))] for _ in range(dim)]
+        for i in r.choice(dim, size=max(1, dim // 4), replace=False):
+            v[i] = complex(-r.uniform(0.3, 1), -0.0) if r.integers(2) else r.uniform(0.3, 1) * np.exp(1j * r.uniform(-3, 3))
+        out.append(("negzero-sparse", _div_norm_keep(v), ("negzero",)))
+        v = [-0.0] * dim
+        for i in r.choice(dim, size=max(1, dim // 2), replace=False):
+            v[i] = float(r.uniform(0.3, 1) * r.choice([-1.0, 1.0]))
+        out.append(("negzero-real", _div_norm_keep(v), ("negzero", "real", "realnz")))
+        v = [nzs[int(r.integers(3))] for _ in range(dim)]
+        v[int(r.integers(dim))] = DIV_QUARTIC[int(r.integers(4))]
+        out.append(("negzero-unit", np.array([complex(a) for a in v]), ("negzero",)))
+    return out
+
+
+def _div_norm_keep(vals):
+    """Normalise keeping the signs of the zeros (division by a positive norm keeps them)."""
+    z = [complex(a) for a in vals]
+    nrm = math.sqrt(sum(abs(a) ** 2 for a in z))
+    return np.array([complex(a.real / nrm, a.imag / nrm) for a in z])
+
+
+def _div_forms_for(tags):
+    """Element-type forms an input with these tags can be handed over in."""
+    forms = list(DIV_ANY_FORMS)
+    if "real" in tags:
+        forms += DIV_REAL_FORMS
+    if "exact32" in tags:
+        forms += ["c64", "npscalar32-list"] + (["f32"] if "real" in tags else [])
+    if "int" in tags:
+        forms += ["int-list", "i64"]
+    if "int" in tags or "gaussint" in tags:
+        forms += ["mixed-list"]
+    return forms
+
+
+def _div_input(re_, im_, form):
+    """The object handed to the library, and the harness's own ideal np.asarray(obj, dtype=complex)."""
+    z = [complex(a, b) for a, b in zip(re_, im_)]
+    real = [float(a) for a in re_]
+    if form == "list":
+        x = list(z)
+    elif form == "tuple":
+        x = tuple(z)
+    elif form == "c128":
+        x = np.array(z, dtype=np.complex128)
+    elif form == "c64":
+        x = np.array(z, dtype=np.complex64)
+    elif form == "npscalar-list":
+        x = [np.float64(c.real) if (j % 2 and c.imag == 0 and not math.copysign(1, c.imag) < 0) else np.complex128(c)
+             for j, c in enumerate(z)]
+    elif form == "npscalar32-list":
+        x = [np.float32(c.real) if (j % 2 and c.imag == 0) else np.complex64(c) for j, c in enumerate(z)]
+    elif form == "float-list":
+        x = real
+    elif form == "f64":
+        x = np.array(real, dtype=np.float64)
+    elif form == "f32":
+        x = np.array(real, dtype=np.float32)
+    elif form == "i64":
+        x = np.array([int(a) for a in real], dtype=np.int64)
+    elif form == "int-list":
+        x = [int(a) for a in real]
+    elif form == "mixed-list":
+        x = [(int(c.real) if c.real == int(c.real) else float(c.real)) if c.imag == 0 else c for c in z]
+    else:
+        raise ValueError(form)
+    return x, np.asarray(x, dtype=complex)
+
+
+def _div_opts(task, opts):
+    """A fresh options object; `partition` converted to the requested container."""
+    if opts is None:
+        return None
+    o = copy.deepcopy(opts)
+    pf = task.get("part_form")
+    if pf and o.get("partition") is not None:
+        p = o["partition"]
+        o["partition"] = {"list": list(p), "tuple": tuple(p), "ndarray": np.array(p, dtype=np.int64),
+                          "npint-list": [np.int64(a) for a in p], "npint32-tuple": tuple(np.int32(a) for a in p)}[pf]
+    return o
+
+
+def _div_embed(width, parts):
+    """Ideal state of a `width`-wire circuit holding independent blocks: parts = [(vector, wires)], qubit i of the block on
+    wire wires[i]; the other wires stay |0>."""
+    out = np.zeros(2 ** width, dtype=complex)
+    out[0] = 1.0
+    for v, qs in parts:
+        new = np.zeros_like(out)
+        nz = np.nonzero(out)[0]
+        for k in range(len(v)):
+            idx = 0
+            for i, q in enumerate(qs):
+                idx |= ((k >> i) & 1) << q
+            new[nz | idx] += out[nz] * v[k]
+        out = new
+    return out
+
+
+def _div_host(entry):
+    from qiskit import QuantumCircuit, QuantumRegister
+    w = entry["width"]
+    if entry.get("qform") == "tworeg":
+        a = entry.get("split", 1)
+        return QuantumCircuit(QuantumRegister(a, "a"), QuantumRegister(w - a, "b"))
+    return QuantumCircuit(w)
+
+
+def _div_qargs(qc, entry):
+    qs = entry["qubits"]
+    if qs is None:
+        return None
+    qf = entry.get("qform", "int")
+    if qf in ("qubit", "tworeg"):
+        return [qc.qubits[i] for i in qs]
+    if qf == "npint":
+        return [np.int64(i) for i in qs]
+    if qf == "tuple":
+        return tuple(qs)
+    return list(qs)
+
+
+_DIV_INFO = {}
+
+
+def _div_run(task):
+    """-> [(label, prepared statevector, ideal, up to phase?)]"""
+    import qclib.state_preparation as sp
+    from qiskit import QuantumCircuit
+    from qiskit.quantum_info import Statevector
+    cls, n, call = task["cls"], task["n"], task["call"]
+    klass = getattr(sp, cls)
+    upto = bool(task.get("upto_phase"))
+    x, want = _div_input(task["re"], task["im"], task["form"])
+
+    def mk(xx, opts):
+        if cls == "SVDInitialize":
+            return klass(xx)
+        return klass(xx, opt_params=_div_opts(task, opts))
+
+    def sv_of(gate, nq):
+        d = gate.definition
+        if d.num_qubits != nq or gate.num_qubits != nq:
+            raise AssertionError(f"circuit on {d.num_qubits} qubits (declared {gate.num_qubits}) for a {nq}-qubit vector")
+        return Statevector(d).data
+
+    if call == "ctor":
+        g = mk(x, task["opts"])
+        res = [("definition", sv_of(g, n), want, upto)]
+        if cls == "BaaLowRankInitialize" and getattr(g, "node", None) is not None:
+            _DIV_INFO["baa_factors"] = len(g.node.vectors)      # histogram only
+        return res
+    if call == "static":
+        e = task["entry"]
+        qc = _div_host(e)
+        qargs = _div_qargs(qc, e)
+        opts = _div_opts(task, task["opts"])
+        if e.get("positional"):
+            klass.initialize(qc, x, qargs, *([] if cls == "SVDInitialize" else [opts]))
+        elif cls == "SVDInitialize":
+            klass.initialize(qc, x, qubits=qargs)
+        else:
+            klass.initialize(qc, x, qubits=qargs, opt_params=opts)
+        qs = e["qubits"] if e["qubits"] is not None else list(range(n))
+        return [("initialize", Statevector(qc).data, _div_embed(e["width"], [(want, qs)]), upto)]
+    if call == "append-twice":
+        g = mk(x, task["opts"])
+        qc = QuantumCircuit(2 * n)
+        q1, q2 = list(range(n)), list(range(2 * n - 1, n - 1, -1))
+        qc.append(g, q1)
+        qc.append(g, q2)
+        return [("same gate appended twice", Statevector(qc).data, _div_embed(2 * n, [(want, q1), (want, q2)]), upto)]
+    if call in ("copy-before-definition", "deepcopy-before-definition"):
+        g = mk(x, task["opts"])
+        g2 = g.copy() if call.startswith("copy") else copy.deepcopy(g)
+        s2 = sv_of(g2, n)
+        return [("copy", s2, want, upto), ("original after copy", sv_of(g, n), want, upto)]
+    if call == "use-after-copy":
+        g = mk(x, task["opts"])
+        s0 = sv_of(g, n)
+        g2 = g.copy()
+        g3 = copy.deepcopy(g)
+        qc = QuantumCircuit(2 * n)
+        q1, q2 = list(range(n, 2 * n)), list(range(n))[::-1]
+        qc.append(g2, q1)
+        qc.append(g, q2)
+        return [("definition", s0, want, upto), ("copy after definition", sv_of(g2, n), want, upto),
+                ("deepcopy after definition", sv_of(g3, n), want, upto),
+                ("copy and original appended", Statevector(qc).data, _div_embed(2 * n, [(want, q1), (want, q2)]), upto)]
+    if call in ("dict-reuse-lazy", "dict-reuse-eager"):
+        # ONE dict object: construct, change its contents, construct again (other size, options valid for that size only)
+        x2, want2 = _div_input(task["re2"], task["im2"], task["form"])
+        n2 = task["n2"]
+        d = _div_opts(task, task["opts"]) if task["opts"] is not None else {}
+        g1 = klass(x, opt_params=d)
+        res = []
+        if call == "dict-reuse-eager":
+            res.append(("first gate (built before the dict changes)", sv_of(g1, n), want, upto))
+        d.clear()
+        d.update(_div_opts(task, task["opts2"]))
+        g2 = klass(x2, opt_params=d)
+        res.append(("second gate", sv_of(g2, n2), want2, bool(task.get("upto_phase2"))))
+        res.append(("first gate (definition after the dict changed)", sv_of(g1, n), want, upto))
+        return res
+    raise ValueError(call)
+
+
+def eval_div(task):
+    """Worker: run one diversity case on the REAL code."""
+    import sys
+    import warnings
+    warnings.filterwarnings("ignore")
+    repo = task["repo"]
+    if repo not in sys.path:
+        sys.path.insert(0, repo)
+    out = {"key": task["key"]}
+
+    def worst(comps):
+        w = None
+        for label, sv, want, upto in comps:
+            if len(sv) != len(want):
+                return (float("inf"), f"{label}: {len(sv)} amplitudes for an ideal of {len(want)}")
+            ph = 1.0
+            if upto:
+                ov = np.vdot(want, sv)
+                ph = ov / abs(ov) if abs(ov) > 1e-12 else 1.0
+            diff = np.abs(sv - ph * want)
+            err = float(diff.max()) if np.all(np.isfinite(diff)) else float("inf")
+            if w is None or err > w[0]:
+                k = int(np.argmax(diff))
+                w = (err, f"{label}: amplitude {k}: prepared {sv[k]:.9f}, wanted {(ph * want)[k]:.9f} (max err {err:.3e}, "
+                          f"|<v|psi>| = {abs(np.vdot(want, sv)):.9f})")
+        return w
+
+    _DIV_INFO.clear()
+    try:
+        err, detail = worst(_div_run(task))
+    except Exception as ex:
+        out.update(status="raises", detail=f"{type(ex).__name__}: {str(ex)[:300]}")
+        return out
+    out["err"] = err
+    out["info"] = dict(_DIV_INFO)
+    if TOL < err <= A2_MAX:
+        from unittest import mock
+        import qclib.unitary as qu
+        try:
+            with mock.patch.object(qu, "_apply_a2", lambda circuit: circuit):
+                err2, _ = worst(_div_run(task))
+        except Exception:
+            err2 = None
+        if err2 is not None and err2 <= TOL:
+            out.update(status="a2", err_without_a2=err2,
+                       detail=detail + f"; with qclib.unitary._apply_a2 bypassed the error is {err2:.3e}: precision limit of "
+                                       "qiskit's A.2 re-synthesis of a near-special two-qubit block")
+            return out
+    if not err <= TOL:
+        out.update(status="fail", detail=detail)
+    else:
+        out["status"] = "ok"
+    return out
+
+
+def _div_callstr(task):
+    cls, form = task["cls"], task["form"]
+    o = f"opt_params={task['opts']}" + (f" [partition as {task['part_form']}]" if task.get("part_form") else "")
+    if task["call"] == "static":
+        e = task["entry"]
+        return (f"{cls}.initialize(<{e['width']}-wire circuit{' (two registers)' if e.get('qform') == 'tworeg' else ''}>, "
+                f"<{form}>, qubits={e['qubits']} as {e.get('qform', 'int')}{', positional' if e.get('positional') else ''}, {o})")
+    return f"{cls}(<{form}>, {o}): {task['call']}"
+
+
+def div_task(ctx, cls, opts, n, name, v, form="c128", call="ctor", upto=False, sec="A", **extra):
+    import framework
+    key = f"div{sec}:{cls}:{optkey(opts)}:{call}:{form}:n={n}:{name}"
+    if extra.get("entry"):
+        e = extra["entry"]
+        key += f":w{e['width']}q{'-'.join(map(str, e['qubits'])) if e['qubits'] is not None else 'None'}{e.get('qform', 'int')}"
+    if extra.get("part_form"):
+        key += ":P-" + extra["part_form"]
+    t = {"div": True, "repo": framework.REPO, "cls": cls, "opts": opts, "n": n, "family": name, "form": form, "call": call,
+         "re": [float(a.real) for a in v], "im": [float(a.imag) for a in v], "upto_phase": bool(upto), "key": key}
+    t.update(extra)
+    ctx.count(f"diversity:form:{form}")
+    ctx.count(f"diversity:call:{call}" + (":" + extra["entry"].get("qform", "int") if extra.get("entry") else ""))
+    ctx.count("diversity:vector:" + name.replace(":", "-").split("-")[0])
+    ctx.count(f"diversity:class:{cls}")
+    ctx.count(f"diversity:n={n}")
+    return t
+
+
+def _div_task_sec(sec):
+    def f(ctx, *a, **k):
+        return div_task(ctx, *a, sec=sec, **k)
+    return f
+
+
+div_task_B, div_task_C, div_task_D, div_task_E, div_task_F = (_div_task_sec(x) for x in "BCDEF")
+
+
+def record_div(ctx, task, res):
+    rep = {k: v for k, v in task.items() if k != "repo"}
+    rep["callstr"] = _div_callstr(task)
+    nz = sum(1 for a, b in zip(task["re"], task["im"]) if a != 0 or b != 0)
+    ctx.count(f"oracle:{task['cls']}")
+    if (res.get("info") or {}).get("baa_factors", 1) > 1:
+        ctx.count("diversity:baa:plan-with-several-factors")
+    if res["status"] == "ok":
+        ctx.ok(task["key"], nontrivial=task["n"] >= 2 and nz >= 2,
+               sample={"class": task["cls"], "opts": task["opts"], "n": task["n"], "family": task["family"],
+                       "form": task["form"], "call": task["call"], "err": res["err"]})
+    elif res["status"] == "a2":
+        ctx.count("a2-precision")
+        ctx.fail(f"dense-a2-precision:{task['cls']}:{optkey(task['opts'])}:n={task['n']}:div:{task['family']}",
+                 f"{task['key']}: {rep['callstr']}: " + res["detail"],
+                 dict(rep, observed_err=res.get("err"), err_without_a2=res.get("err_without_a2")))
+    elif res["status"] == "raises":
+        ctx.fail(task["key"] + ":raises", f"{rep['callstr']}: " + res["detail"], rep)
+    else:
+        ctx.fail(task["key"], f"{rep['callstr']}: " + res["detail"], dict(rep, observed_err=res.get("err")))
+
+
+def run_div_tasks(ctx, tasks):
+    from concurrent.futures import ProcessPoolExecutor
+    import multiprocessing as mp
+    if not tasks:
+        return
+    workers = max(1, min(14, (os.cpu_count() or 2) - 1))
+    order = sorted(range(len(tasks)), key=lambda i: -(tasks[i]["n"] * (2 if tasks[i]["call"] in ("append-twice", "use-after-copy") else 1)))
+    with ProcessPoolExecutor(max_workers=workers, mp_context=mp.get_context("fork")) as ex:
+        res_sorted = list(ex.map(eval_div, [tasks[i] for i in order], chunksize=4))
+    results = [None] * len(tasks)
+    for i, res in zip(order, res_sorted):
+        results[i] = res
+    for task, res in zip(tasks, results):
+        record_div(ctx, task, res)
+
+
+def _div_option_sets(cls, n):
+    """Every documented option value of the class (exact preparation), incl. None / {} / partial / full dictionaries.
+    -> [(opts, up to phase?)]"""
+    if cls == "TopDownInitialize":
+        return [(None, False), ({}, False), ({"lib": "qclib"}, False), ({"lib": "qiskit"}, False), ({"global_phase": True}, False),
+                ({"global_phase": False}, True), ({"global_phase": True, "lib": "qiskit"}, False),
+                ({"global_phase": True, "lib": "qclib"}, False)]
+    if cls == "SVDInitialize":
+        return [(None, False)]
+    if cls == "UCGInitialize":
+        return [(None, False), ({}, False), ({"target_state": 0}, False), ({"target_state": 0, "preserve_previous": False}, False),
+                ({"target_state": 0, "preserve_previous": True}, False), ({"preserve_previous": False}, False)]
+    if cls == "UCGEInitialize":
+        return [(None, False), ({}, False), ({"target_state": 0}, False), ({"target_state": 0, "preserve_previous": False}, False)]
+    if cls == "IsometryInitialize":
+        return [(None, False), ({}, False), ({"scheme": "ccd"}, False), ({"scheme": "csd"}, False)] + \
+               ([({"scheme": "knill"}, False)] if n >= 2 else [])
+    if cls == "LowRankInitialize":
+        out = [(None, False), ({}, False), ({"svd": "regular"}, False), ({"svd": "auto", "lr": 0}, False)]
+        out += [({"iso_scheme": i, "unitary_scheme": u}, False) for i, u in SCHEME_PAIRS]
+        out += [({"iso_scheme": "knill"}, False), ({"unitary_scheme": "csd", "lr": 2 ** n}, False)]
+        return out
+    if cls == "BaaLowRankInitialize":
+        out = [(None, False), ({}, False), ({"max_fidelity_loss": 0}, False), ({"max_fidelity_loss": 0.0, "strategy": "greedy"}, False)]
+        for st in ("greedy", "brute_force", "split", "canonical"):
+            for ulr in (False, True):
+                for mcs in (0, 1, 2):
+                    if mcs > max(1, n // 2):
+                        continue
+                    out.append(({"max_fidelity_loss": 0 if (mcs + ulr) % 2 else 0.0, "strategy": st, "use_low_rank": ulr,
+                                 "max_combination_size": mcs}, False))
+        out += [({"max_fidelity_loss": 0.0, "strategy": "brute_force", "use_low_rank": True, "iso_scheme": "knill",
+                  "unitary_scheme": "csd"}, False),
+                ({"max_fidelity_loss": 0, "iso_scheme": "csd", "unitary_scheme": "qsd"}, False)]
+        return out
+    raise ValueError(cls)
+
+
+def _div_min_n(cls, opts):
+    if cls == "SVDInitialize":
+        return 2
+    if opts and (opts.get("scheme") == "knill"):
+        return 2
+    return 1
+
+
+def _div_entry(ctx, n, qform, width=None, positional=False):
+    """A permuted, non-ascending, non-contiguous selection of n wires of a larger host."""
+    w = width or n + 2
+    while True:
+        qs = ctx.rng.sample(range(w), n)
+        if n == 1:
+            if qs[0] != 0:
+                break
+        elif qs != sorted(qs) and (n < 3 or qs != sorted(qs, reverse=True)):
+            break
+    e = {"width": w, "qubits": qs, "qform": qform}
+    if qform == "tworeg":
+        e["split"] = ctx.rng.choice([1, 2])
+    if positional:
+        e["positional"] = True
+    return e
+
+
+def _diversity_oracle_tasks(ctx):
+    r = ctx.nprng()
+    tasks = []
+    cyc = {c: ctx.rng.randrange(1000) for c in ALL_CLASSES}
+
+    def next_opts(cls, n):
+        sets = [s for s in _div_option_sets(cls, n) if _div_min_n(cls, s[0]) <= n]
+        cyc[cls] += 1
+        return sets[cyc[cls] % len(sets)]
+
+    # ---- A. scale / sign / phase families x every class, n = 1, 2, 3, 4 in full, selected at n = 5, 6;
+    #         options cycle through the documented values of the class (every option meets every family over the sizes)
+    qforms = ["int", "qubit", "npint", "tworeg", "tuple"]
+    fc = itertools.count(ctx.rng.randrange(100))
+    for n in (1, 2, 3, 4, 5, 6):
+        level = 2 if n <= 3 else (1 if n == 4 else 0)
+        vecs = _div_vectors(r, n, level)
+        for name, v, tags in vecs:
+            if v is None:
+                ctx.count("diversity:skipped:rank-cut-band")
+                continue
+            for cls in ALL_CLASSES:
+                if n < _div_min_n(cls, None):
+                    continue
+                if n >= 5 and cls == "BaaLowRankInitialize" and next(fc) % 2:
+                    continue
+                opts, upto = next_opts(cls, n)
+                forms = DIV_ANY_FORMS
+                form = forms[next(fc) % len(forms)]
+                tasks.append(div_task(ctx, cls, opts, n, name, v, form=form, upto=upto))
+                # the escaped kinds (light tail, exact phases, unit amplitude, negative zeros): static helper as well
+                k = next(fc)
+                if n <= 4 and (name.startswith(("tail", "equal-quartic", "negzero", "realsigned")) or (name.startswith("unit") and k % 3 == 0)):
+                    opts2, upto2 = next_opts(cls, n)
+                    e = _div_entry(ctx, n, qforms[k % len(qforms)], positional=(k % 7 == 0))
+                    tasks.append(div_task(ctx, cls, opts2, n, name, v, form=forms[k % len(forms)], call="static", upto=upto2, entry=e))
+
+    # ---- B. element types x every class x every option value, n = 1, 2, 3 (constructor and static helper)
+    tog = {}
+    for n in (1, 2, 3):
+        vecs = {name: (v, tags) for name, v, tags in _div_vectors(r, n, 1) if v is not None}
+        pick = {}
+        for name, (v, tags) in vecs.items():
+            for form in _div_forms_for(tags):
+                pick.setdefault(form, []).append(name)
+        for cls in ALL_CLASSES:
+            for opts, upto in _div_option_sets(cls, n):
+                if n < _div_min_n(cls, opts):
+                    continue
+                if cls == "BaaLowRankInitialize" and opts and opts.get("max_combination_size") == 2 and n < 3:
+                    continue
+                for form in DIV_REAL_FORMS + DIV_EXACT32_FORMS + DIV_INT_FORMS + DIV_ANY_FORMS:
+                    names = pick.get(form, [])
+                    if not names:
+                        continue
+                    # prefer vectors with negative entries for the real dtypes
+                    pref = [x for x in names if x.startswith(("realsigned", "tail", "dyadic", "negzero", "allneg", "equal", "imag"))] or names
+                    k = next(fc)
+                    name = pref[k % len(pref)]
+                    v, tags = vecs[name]
+                    if cls in ("LowRankInitialize", "BaaLowRankInitialize", "TopDownInitialize") and k % 3 and form in DIV_ANY_FORMS:
+                        continue        # the python-container forms are already crossed with these classes in A
+                    tog[(cls, form)] = tog.get((cls, form), 0) + 1
+                    both = cls != "BaaLowRankInitialize" and form not in DIV_ANY_FORMS      # BAA: alternate (30 option sets)
+                    if both or tog[(cls, form)] % 2:
+                        tasks.append(div_task_B(ctx, cls, opts, n, name, v, form=form, upto=upto))
+                    if both or not tog[(cls, form)] % 2:
+                        e = _div_entry(ctx, n, qforms[(k + tog[(cls, form)]) % len(qforms)], positional=(k % 5 == 0))
+                        tasks.append(div_task_B(ctx, cls, opts, n, name, v, form=form, call="static", upto=upto, entry=e))
+        # the two integer basis vectors of the task text, every class, both call forms
+        if n == 2:
+            for cls in ALL_CLASSES:
+                for lit, nm in (([0, 1, 0, 0], "basis-0100"), ([0, 0, 0, -1], "basis-000m1")):
+                    for form in ("int-list", "i64"):
+                        opts, upto = next_opts(cls, n)
+                        v = np.array(lit, dtype=complex)
+                        tasks.append(div_task_B(ctx, cls, opts, n, nm, v, form=form, upto=upto))
+                        tasks.append(div_task_B(ctx, cls, opts, n, nm, v, form=form, call="static", upto=upto,
+                                              entry=_div_entry(ctx, n, qforms[next(fc) % len(qforms)])))
+
+    # ---- C. real dtypes x the routines that work in place / build complex intermediates: every scheme, n = 1..4
+    for n in (1, 2, 3, 4):
+        vecs = [(name, v) for name, v, tags in _div_vectors(r, n, 1) if v is not None and "real" in tags and "negzero" not in tags]
+        for cls, optlist in (("IsometryInitialize", [{"scheme": s} for s in ISO]),
+                             ("LowRankInitialize", [{"iso_scheme": i, "unitary_scheme": u} for i, u in SCHEME_PAIRS]),
+                             ("UCGInitialize", [None]), ("UCGEInitialize", [None]), ("SVDInitialize", [None]),
+                             ("BaaLowRankInitialize", [{"max_fidelity_loss": 0, "iso_scheme": "knill"}, {"use_low_rank": True}])):
+            for opts in optlist:
+                if n < _div_min_n(cls, opts):
+                    continue
+                for j, (name, v) in enumerate(vecs):
+                    if n == 4 and j % 2:
+                        continue
+                    form = (DIV_REAL_FORMS + ["f64"])[next(fc) % 3]
+                    tasks.append(div_task_C(ctx, cls, opts, n, name, v, form=form))
+
+    # ---- D. call forms: same gate twice, copies before / after the definition, one dict object for two constructions
+    for n in (1, 2, 3):
+        vecs = [(name, v) for name, v, tags in _div_vectors(r, n, 0) if v is not None and "negzero" not in tags]
+        vecs2 = [(name, v) for name, v, tags in _div_vectors(r, n + 1, 0) if v is not None and "negzero" not in tags]
+        for cls in ALL_CLASSES:
+            for call in ("append-twice", "copy-before-definition", "deepcopy-before-definition", "use-after-copy"):
+                if n < _div_min_n(cls, None):
+                    continue
+                opts, upto = next_opts(cls, n)
+                name, v = vecs[next(fc) % len(vecs)]
+                tasks.append(div_task_D(ctx, cls, opts, n, name, v, form=DIV_ANY_FORMS[next(fc) % 4], call=call, upto=upto))
+            if cls == "SVDInitialize":
+                continue
+            for call in ("dict-reuse-lazy", "dict-reuse-eager"):
+                for o1, o2, up2 in _div_reuse_pairs(cls, n):
+                    if n < _div_min_n(cls, o1):
+                        continue
+                    name, v = vecs[next(fc) % len(vecs)]
+                    name2, v2 = vecs2[next(fc) % len(vecs2)]
+                    tasks.append(div_task_D(ctx, cls, o1, n, name, v, form=DIV_ANY_FORMS[next(fc) % 4], call=call,
+                                          opts2=o2, n2=n + 1, family2=name2, upto_phase2=up2,
+                                          re2=[float(a.real) for a in v2], im2=[float(a.imag) for a in v2]))
+
+    # ---- E. LowRankInitialize: the partition as list / tuple / ndarray / numpy ints, sorted and unsorted, n = 2..5,
+    #         constructor and static helper
+    pforms = ["tuple", "ndarray", "npint-list", "npint32-tuple", "list"]
+    for n in (2, 3, 4, 5):
+        subsets = [list(s) for k in range(1, n) for s in itertools.combinations(range(n), k)]
+        if n == 5:
+            subsets = ctx.rng.sample(subsets, 8)
+        for sub in subsets:
+            orders = [list(sub)]
+            if len(sub) >= 2:
+                sh = list(sub)
+                while sh == sorted(sh):
+                    ctx.rng.shuffle(sh)
+                orders.append(sh)
+            for order in orders:
+                k = next(fc)
+                pf = pforms[k % len(pforms)]
+                if order == sorted(order) and pf == "list":
+                    pf = "tuple"
+                iso, uni = SCHEME_PAIRS[k % len(SCHEME_PAIRS)]
+                opts = {"partition": order, "iso_scheme": iso, "unitary_scheme": uni}
+                fam = ["complex", "rankdef", "real_signed", "sparse"][k % 4]
+                v = make_vector(r, n, fam, sub)
+                if in_band(n, v, sub):
+                    continue
+                nm = f"{fam}:P={','.join(map(str, order))}"
+                if k % 3 == 0 and n <= 4:
+                    tasks.append(div_task_E(ctx, "LowRankInitialize", opts, n, nm, v, form="list", call="static",
+                                          entry=_div_entry(ctx, n, qforms[k % len(qforms)]), part_form=pf))
+                else:
+                    tasks.append(div_task_E(ctx, "LowRankInitialize", opts, n, nm, v, form=DIV_ANY_FORMS[k % 4], part_form=pf))
+                ctx.count("diversity:partition:" + pf + (":unsorted" if order != sorted(order) else ":sorted"))
+
+    # ---- F. BaaLowRankInitialize at zero loss on states whose plan has SEVERAL factors (each factor gets its own options:
+    #         a one-qubit factor has rank 1, an entangled factor rank 0): exact structured products (GHZ / W / Bell / cluster
+    #         blocks next to basis or |+> factors, qubits permuted), and a 4-qubit block of Schmidt rank 2 across a 2|2 cut
+    def ghz(k, a=1 / math.sqrt(2), b=1 / math.sqrt(2)):
+        w = np.zeros(2 ** k, dtype=complex)
+        w[0], w[-1] = a, b
+        return w
+    e0, e1, plus = np.array([1.0, 0.0]), np.array([0.0, 1.0]), np.array([1.0, 1.0]) / math.sqrt(2)
+    bell = ghz(2)
+    w4 = np.zeros(16)
+    for q in range(4):
+        w4[1 << q] = 0.5
+    cl4 = np.kron(bell, bell)
+    for i in range(16):
+        if (i >> 1) & 1 and (i >> 2) & 1:
+            cl4[i] = -cl4[i]
+    structured = [("ghz4x0", [ghz(4), e0]), ("1xghz4", [e1, ghz(4)]), ("ghz4-0.6-0.8ix+", [ghz(4, 0.6, 0.8j), plus]),
+                  ("bellxbellx0", [bell, bell, e0]), ("w4x1", [w4, e1]), ("cluster4x0", [cl4, e0]), ("ghz3xbell", [ghz(3), bell]),
+                  ("ghz4xbell", [ghz(4), bell]), ("bellxghz4-0.6-m0.8", [bell, ghz(4, 0.6, -0.8)]), ("bellxbellxbell", [bell] * 3),
+                  ("ghz3x0x1", [ghz(3), e0, e1]), ("0xbell", [e0, bell]), ("bellx1x+", [bell, e1, plus])]
+    for nm, facs in structured:
+        v = np.ones(1, dtype=complex)
+        for f in facs:
+            v = np.kron(v, f)
+        n = int(round(math.log2(len(v))))
+        perms = [list(range(n))] + [[int(a) for a in r.permutation(n)]]
+        for pi_, perm in enumerate(perms):
+            vv = _div_cl(np.transpose(v.reshape([2] * n), perm).reshape(-1))
+            for st in ("brute_force", "greedy"):
+                for ulr in ((False, True) if n <= 4 or (pi_ == 0 and st == "brute_force") else (False,)):
+                    k = next(fc)
+                    iso, uni = SCHEME_PAIRS[k % len(SCHEME_PAIRS)]
+                    opts = {"max_fidelity_loss": 0 if k % 2 else 0.0, "strategy": st, "use_low_rank": ulr}
+                    if k % 3 == 0:
+                        opts.update(iso_scheme=iso, unitary_scheme=uni)
+                    tasks.append(div_task_F(ctx, "BaaLowRankInitialize", opts, n, f"{nm}-perm{''.join(map(str, perm))}", vv,
+                                            form=DIV_ANY_FORMS[k % 4]))
+    for n in (5, 6):
+        cut = [[0, 1], [0, 2], [1, 2], [0, 3]][int(r.integers(4))]
+        u = _haar_cols(r, 4, 2)
+        w = _haar_cols(r, 4, 2)
+        blk = ref_undo(4, (u * np.array([0.8, 0.6])) @ w.T, cut)
+        other = _haar_cols(r, 2 ** (n - 4), 1)[:, 0]
+        v = _div_cl(np.kron(blk, other) if n == 5 else np.kron(other, blk))
+        if not _div_cut_ok(v, n):
+            ctx.count("diversity:skipped:rank-cut-band")
+            continue
+        for st in ("greedy", "brute_force"):
+            for ulr in (True, False):
+                tasks.append(div_task_F(ctx, "BaaLowRankInitialize",
+                                        {"max_fidelity_loss": 0, "strategy": st, "use_low_rank": ulr}, n,
+                                        f"rank2-block-cut{''.join(map(str, cut))}", v, form="list"))
+    return tasks
+
+
+def _div_reuse_pairs(cls, n):
+    """(first options, second options, second up to phase?): the second set is meant for the (n+1)-qubit vector of the second
+    construction; where the class has such options it is not valid for n qubits, or it permits a deviation the first does
+    not (global_phase=False), so a gate that read the caller's dict late would be wrong."""
+    if cls == "TopDownInitialize":
+        return [({"global_phase": True}, {"global_phase": False, "lib": "qclib"}, True), (None, {"lib": "qiskit"}, False)]
+    if cls in ("UCGInitialize", "UCGEInitialize"):
+        return [({"target_state": 0}, {"target_state": 0, "preserve_previous": False}, False)]
+    if cls == "IsometryInitialize":
+        return [({"scheme": "ccd"}, {"scheme": "knill"}, False), ({"scheme": "csd"}, {"scheme": "ccd"}, False)]
+    if cls == "LowRankInitialize":
+        p1 = [0] if n >= 2 else None
+        o1 = {"iso_scheme": "knill", "unitary_scheme": "csd"}
+        if p1:
+            o1["partition"] = p1
+        return [(o1, {"partition": [n], "iso_scheme": "ccd"}, False), ({}, {"partition": [n, 0] if n >= 2 else [n]}, False)]
+    if cls == "BaaLowRankInitialize":
+        return [({"max_fidelity_loss": 0, "strategy": "brute_force"}, {"max_fidelity_loss": 0.0, "strategy": "greedy",
+                                                                      "use_low_rank": True, "iso_scheme": "knill"}, False)]
+    return []
+
+
+def _diversity_tie(ctx):
+    """The same families through the correspondence: TopDownInitialize (trees, multiplexer calls, gate list, phase) for every
+    family without negative zeros, n = 1..4; LowRank plans with light-tail / structured vectors and the partition handed over
+    as tuple / ndarray / numpy ints; SVD plans with tuple / real inputs."""
+    r = ctx.nprng()
+    for n in (1, 2, 3, 4):
+        for name, v, tags in _div_vectors(r, n, 2 if n <= 3 else 1):
+            if v is None or "negzero" in tags:
+                continue
+            for gp in ((None, False) if (n <= 3 or name.startswith(("tail", "equal-quartic", "unit"))) else (None,)):
+                tie_topdown(ctx, v, gp, "div:" + name)
+            ctx.count("diversity:tie:topdown:" + name.split("-")[0])
+    pforms = {"tuple": tuple, "ndarray": lambda p: np.array(p, dtype=np.int64), "npint-list": lambda p: [np.int64(a) for a in p]}
+    k = 0
+    for n in (2, 3, 4):
+        subsets = [list(s) for j in range(1, n) for s in itertools.combinations(range(n), j)]
+        vecs = [(name, v) for name, v, tags in _div_vectors(r, n, 1)
+                if v is not None and "negzero" not in tags and name.startswith(("tail", "equal-quartic", "unit", "sparse", "subtree",
+                                                                                  "realsigned", "repeat", "dyadic"))]
+        for name, v in vecs:
+            k += 1
+            sub = subsets[k % len(subsets)]
+            order = list(sub)
+            if len(order) >= 2 and k % 2:
+                order = order[::-1]
+            pf = list(pforms)[k % 3]
+            for part, obj in ((None, None), (order, pforms[pf](order))):
+                _, svals = eff_rank(v, n, default_partition(n) if part is None else sub)
+                if any(DIV_CUT_BAND[0] <= x <= DIV_CUT_BAND[1] for x in svals):
+                    ctx.count("plesch:skipped-threshold-band")
+                    continue
+                for lr in (0, 1):
+                    iso, uni = PLESCH_SCHEMES[(k + lr) % 2]
+                    op, lines = plan_impl(v, n, part, lr, iso, uni, "auto" if k % 2 else "regular", part_obj=obj)
+                    ctx.tie(op, lines)
+                    ctx.count("diversity:tie:lrplan:" + ("default-partition" if part is None else pf))
+    for n in (2, 3, 4, 5):
+        for name, v, tags in _div_vectors(r, n, 0):
+            if v is None or "negzero" in tags:
+                continue
+            x = tuple(v) if "real" not in tags else np.array(v.real, dtype=np.float64)
+            op, lines = svdplan_impl(x, n)
+            ctx.tie(op, lines)
+            ctx.count("diversity:tie:svdplan")
+
+
+def _diversity_oracle(ctx):
+    tasks = _diversity_oracle_tasks(ctx)
+    run_div_tasks(ctx, tasks)
+    ctx.notes.append("input diversity (_diversity_*): every class x documented option values x {python list, tuple, list of numpy "
+                     "scalars (64 / 32 bit), complex128, complex64, float64, float32, int64, all-int lists, mixed int/complex lists} "
+                     "x {heavy head + light tail 1e-3 / 1e-4 / 3e-6 at start / end / mixed, graded 1..1e-6, equal moduli with phases "
+                     "+-1 / +-i, repeated values, all-negative, purely imaginary, global phase -1 / i, one amplitude of modulus 1 at "
+                     "each index with each quartic phase, sparse, single sub-tree, exact dyadic vectors, negative zeros} x {constructor, "
+                     "static initialize on a permuted non-ascending sub-list of a wider host with int / numpy-int / Qubit / two-register "
+                     "/ tuple / positional arguments, same gate twice, copy / deepcopy before and after the definition, one opt_params "
+                     "dict reused with changed contents}, n = 1, 2, 3 in full, 4, selected 5, 6; float32 / complex64 inputs are exact "
+                     "dyadic vectors (anything else fails the documented 1e-10 normalisation test); light-tail vectors keep every "
+                     f"Schmidt coefficient across every bipartition outside [{DIV_CUT_BAND[0]}, {DIV_CUT_BAND[1]}]")
+
+
+# ------------------------------------------------------------------------------------------------
 # entry points
 # ------------------------------------------------------------------------------------------------
 
@@ -1479,7 +2367,9 @@ def run(ctx):
     run_tie_topdown(ctx)
     run_tie_boundaries(ctx)
     run_tie_plesch(ctx, nmax=5 if ctx.quick else 6)
+    _diversity_tie(ctx)
     run_oracle(ctx)
+    _diversity_oracle(ctx)
 
 
 def search(ctx, hints):
@@ -1511,6 +2401,11 @@ def search(ctx, hints):
 
 def replay(ctx, payload):
     rp = payload["replay"]
+    if rp.get("div"):
+        import framework
+        t = dict(rp, repo=framework.REPO)
+        record_div(ctx, t, eval_div(t))
+        return
     v = np.array(rp["re"]) + 1j * np.array(rp["im"])
     t = make_task(rp["cls"], rp["opts"], rp["n"], rp.get("family", "replay"), 0, v, upto_phase=rp.get("upto_phase", False),
                   label=rp.get("label"), entry=rp.get("entry"))
